@@ -2,6 +2,8 @@
 package c08
 
 import (
+	"encoding/binary"
+	"strings"
 	"io"
 	"errors"
 	"sync"
@@ -348,7 +350,7 @@ type ReencCase struct {
 	Item int     `json:"item"` // pre-order index of the CBOR item the re-encoding is applied to
 }
 
-var sigKinds = []string{"sig-ecdsa-n-minus-s", "sig-der-long-length", "sig-der-padded-int", "sig-der-trailing-byte", "sig-prepend-zero", "sig-append-zero", "sig-drop-leading-zero"}
+var sigKinds = []string{"sig-ecdsa-n-minus-s", "sig-der-long-length", "sig-der-padded-int", "sig-der-trailing-byte", "sig-prepend-zero", "sig-append-zero", "sig-drop-leading-zero", "sig-frame-prepend-header", "sig-frame-append-header", "sig-frame-prepend-varsig-prefix", "sig-frame-prepend-length", "sig-frame-prepend-key-code", "sig-frame-doubled", "sig-frame-prepend-ff"}
 
 func curveN(a keys.Alg) *big.Int {
 	switch a {
@@ -430,6 +432,47 @@ func buildVariant(rc ReencCase, sealed []byte) (variant []byte, ok bool) {
 			return nil, false
 		}
 		root.Items[0].Data = sig
+		return root.Bytes(), true
+	}
+	if strings.HasPrefix(rc.Kind, "sig-frame-") {
+		// the same signature in another FRAMING that needs no key: with the envelope's own varsig header (or
+		// a part of it, or its length) in front of or behind it, or twice. A verifier that strips or skips
+		// what it recognises accepts the token under a second CID.
+		if len(root.Items) != 2 || root.Items[1].Major != 5 {
+			return nil, false
+		}
+		var hdr []byte
+		for i := 0; i+1 < len(root.Items[1].Items); i += 2 {
+			if k := root.Items[1].Items[i]; k.Major == 3 && string(k.Data) == "h" {
+				hdr = root.Items[1].Items[i+1].Data
+			}
+		}
+		sig := root.Items[0].Data
+		if len(hdr) < 2 || len(sig) == 0 {
+			return nil, false
+		}
+		if a := rc.Tok.Issuer().Alg; (a == keys.P256 || a == keys.P384 || a == keys.P521) && (rc.Kind == "sig-frame-append-header" || rc.Kind == "sig-frame-doubled") {
+			return nil, false // bytes BEHIND a DER signature = sig-der-trailing-byte, a listed finding for the NIST curves
+		}
+		var out []byte
+		switch rc.Kind {
+		case "sig-frame-prepend-header":
+			out = append(append([]byte{}, hdr...), sig...)
+		case "sig-frame-append-header":
+			out = append(append([]byte{}, sig...), hdr...)
+		case "sig-frame-prepend-varsig-prefix":
+			out = append([]byte{hdr[0]}, sig...)
+		case "sig-frame-prepend-length":
+			out = append(binary.AppendUvarint(nil, uint64(len(sig))), sig...)
+		case "sig-frame-prepend-key-code":
+			out = append(append([]byte{}, hdr[1:len(hdr)-1]...), sig...)
+		case "sig-frame-doubled":
+			out = append(append([]byte{}, sig...), sig...)
+		default:
+			out = append([]byte{0xff}, sig...)
+		}
+		root.Items[0].Data = out
+		root.Items[0].Arg = uint64(len(out))
 		return root.Bytes(), true
 	}
 	cnt := root.Count()
